@@ -2,7 +2,7 @@
    Model: Model/Temp.v in the kernel's primitive binary64 floats (= CPython float), tied bit-exactly to
    GeckoTempStructAccessor / GeckoWaterHeater by tools/props/C14.py. *)
 From Coq Require Import ZArith List Bool Lia PrimFloat.
-Require Import GV.Model.Temp GV.Proofs.TempP.
+Require Import GV.Model.Temp GV.Proofs.TempP GV.Proofs.TempOrderP.
 Import ListNotations.
 
 (* Writing any temperature the device can represent reads back exactly: ALL raw words, both units. *)
@@ -16,6 +16,16 @@ Proof.
   intros u r H. assert (Hin : In r (upto (Z.to_nat 65535) 0%Z)) by (apply upto_In; lia).
   pose proof (proj1 (forallb_forall _ _) get_monotone_sweep r Hin) as G. apply andb_prop in G. destruct G as [A B].
   destruct u; assumption.
+Qed.
+
+(* ... hence in ANY two stored words: the order of the presented values is the order of the words.  This is the one theorem of the
+   development that is not closed: transitivity of '<' on finite binary64 values comes from the standard library's specification of
+   the primitive floats (Coq.Floats.FloatAxioms) and Flocq's real-number semantics (the axioms of Coq.Reals). *)
+Theorem c14_presentation_preserves_order : forall u r1 r2, (0 <= r1)%Z -> (r1 < r2)%Z -> (r2 < 65536)%Z ->
+  (get_temp u r1 <? get_temp u r2)%float = true.
+Proof.
+  intros u r1 r2 H0 H1 H2. pose proof (get_order u (Z.to_nat (r2 - r1 - 1)) r1 H0) as G.
+  replace (r1 + Z.of_nat (S (Z.to_nat (r2 - r1 - 1))))%Z with r2 in G by lia. apply G. exact H2.
 Qed.
 
 (* Any decimal temperature k/100 with 0 <= k <= 20000 (0.00 .. 200.00, in and far around the allowed range),
